@@ -206,6 +206,13 @@ def composite_cases(rng, ntab, per_table=8, tag="wc", argmasks=None, modes_f=(4,
             while len(u) < 10 and rng.random() < 0.85:
                 u += list(rng.choice(lits)) if (lits and rng.random() < 0.6) else rnd()
             return u[:12]
+        if i % 3 == 0:
+            # a call that leaves type information behind (no_contract / no_translate bits on a long text): it is not
+            # compared with the model (which knows plain text only), but whatever it leaves in the library's scratch
+            # memory must not reach the calls after it (F36; seeded change C10-E)
+            cs = [c for c in t.chars() if c != 0x20] or [0x61]
+            pol = [rng.choice(cs) for _ in range(40)]
+            ops.append("FWD %s 0 200 - 1 %s %s -" % (tn, common.wide(pol), common.wide([rng.choice([0x1000, 0x1000, 0x0800])] * 40)))
         for _ in range(per_table):
             u = [c for c in mix(lit_c, lambda: (G.rand_text_rules(rng, t, 4) if rng.random() < 0.5 else G.rand_text(rng, t, 3, undefined=0.04))) if c]
             n = len(u)
@@ -244,6 +251,8 @@ def compare_whole(calls, dist=None):
             loaded.add(c.id)
             lines.append("LOADTABLE %s %s" % (c.meta["tn"], c.out[0].rsplit(" e=", 1)[0])); tags.append(None)
         t_ = k.op.split(" ")
+        if (int(t_[5]) & 1) and t_[7] != "-" and any(common.unwide(t_[7])):
+            continue            # a call with type information: outside the model (see composite_cases)
         lines.append(" ".join(["MCALL", "B" if t_[0] == "BWD" else "F", c.meta["tn"], t_[2], t_[3], t_[4], str(int(t_[5]) & 31),
                                t_[6], t_[7] if (int(t_[5]) & 1) else "-", k.R.get("disp", ".")]))
         tags.append(k)
